@@ -310,6 +310,11 @@ func (s *Store) enter(ctx context.Context, name string) error {
 	defer s.mu.Unlock()
 	s.calls++
 	s.Journal = append(s.Journal, name)
+	if s.extHonourCtx() { // ext_c16.go: false unless SetHonourContext(true) was called
+		if err := ctx.Err(); err != nil {
+			return err
+		}
+	}
 	if (s.FaultAt != 0 && s.calls == s.FaultAt) || (s.FaultMethod != "" && s.FaultMethod == name) {
 		s.FaultHit = true
 		if err := s.extFaultErr(); err != nil { // ext_c10.go: nil unless SetFaultErr was called
@@ -346,7 +351,7 @@ func (s *Store) JournalCopy() []string {
 
 func (s *Store) nextID(prefix string) string {
 	s.seq++
-	return fmt.Sprintf("%s%d", prefix, s.seq)
+	return fmt.Sprintf("%s%d", prefix, s.seq) + s.extIDSuffix(prefix) // ext_c06.go: "" unless SetAccessTokenIDSuffix was called
 }
 
 // ---- test-side operations (not part of op.Storage; never journaled)
@@ -600,7 +605,7 @@ func (s *Store) GetRefreshTokenInfo(ctx context.Context, clientID, token string)
 
 func (s *Store) RevokeToken(ctx context.Context, tokenIDOrToken, userID, clientID string) *oidc.Error {
 	if err := s.enter(ctx, "RevokeToken"); err != nil {
-		return oidc.ErrServerError().WithParent(err)
+		return s.extRevokeErr(err) // ext_c10.go: oidc.ErrServerError().WithParent(err) unless SetFaultErr chose an *oidc.Error
 	}
 	s.mu.Lock()
 	defer s.mu.Unlock()
